@@ -600,6 +600,7 @@ type fontSpec struct {
 	encName    string // "" = no /Encoding (Type1 standard Latin font: StandardEncoding)
 	encAsDict  bool   // /Encoding << /Type /Encoding /BaseEncoding /X >>
 	encRef     bool   // /Encoding n 0 R
+	encNoBase  bool   // /Encoding << /Type /Encoding >> without /BaseEncoding: the base is the font's built-in encoding
 	toUnicode  *core.Stream
 	tuIndirect bool
 }
@@ -615,6 +616,9 @@ func (fs fontSpec) String() string {
 	}
 	if fs.encAsDict {
 		e = "dict:" + e
+	}
+	if fs.encNoBase {
+		e = "dict-without-BaseEncoding"
 	}
 	if fs.encRef {
 		e += ":ref"
@@ -640,7 +644,14 @@ func (fs fontSpec) dict() (core.Dict, store) {
 			"DW":            core.Int(1000)}
 		d["DescendantFonts"] = core.Array{core.IndirectRef{Number: 20}}
 	}
-	if fs.encName != "" {
+	if fs.encNoBase {
+		var e core.Object = core.Dict{"Type": core.Name("Encoding")}
+		if fs.encRef {
+			st[21] = e
+			e = core.IndirectRef{Number: 21}
+		}
+		d["Encoding"] = e
+	} else if fs.encName != "" {
 		var e core.Object = core.Name(fs.encName)
 		if fs.encAsDict {
 			e = core.Dict{"Type": core.Name("Encoding"), "BaseEncoding": core.Name(fs.encName)}
@@ -743,6 +754,9 @@ func runPrecedence(c *fw.Ctx) {
 		}
 	}
 	specs = append(specs, fontSpec{kind: "Type1", encName: ""}) // Helvetica without /Encoding: built-in = StandardEncoding
+	// an Encoding dictionary that omits /BaseEncoding: for a non-symbolic standard Type 1 font the base is
+	// its built-in encoding, StandardEncoding (ISO 32000-1 Table 114)
+	specs = append(specs, fontSpec{kind: "Type1", encName: "", encNoBase: true}, fontSpec{kind: "Type1", encName: "", encNoBase: true, encRef: true})
 	specs = append(specs, fontSpec{kind: "Type0", encName: "Identity-H"}, fontSpec{kind: "Type0", encName: "Identity-V"})
 
 	n := c.N(40, 1500)
